@@ -3,7 +3,7 @@
 # usage: tools/mutcheck.sh <patch.diff|-> <ID> [quick|thorough]      ("-" = unpatched copy)
 set -u
 PATCH="$1"; ID="$2"; TIER="${3:-quick}"
-M=/tmp/mut; W=$M/repo; H=$M/harness
+M=/tmp/mut${MUT_INSTANCE:-}; W=$M/repo; H=$M/harness
 mkdir -p $M/out
 if [ ! -d $W/.git ] && [ ! -f $W/.git ]; then git -C /repo worktree add --detach $W HEAD >/dev/null 2>&1 || exit 2; fi
 git -C $W reset -q --hard && git -C $W checkout -q --detach "$(git -C /repo rev-parse HEAD)" && git -C $W reset -q --hard && git -C $W clean -qfd -e target
